@@ -48,6 +48,9 @@ def descriptions(inp):
                                                                     {"suit-directive-try-each": [[{"suit-condition-abort": []}], []]}]
     b2["SUIT_Envelope_Tagged"]["suit-authentication-wrapper"]["SuitAuthentication0"] = {"CoseSign1Tagged": {
         "protected": {"suit-cose-algorithm-id": "cose-alg-es-256", "suit-cose-key-id": 5}, "unprotected": {}, "payload": None, "signature": "ab" * 64}}
+    for i, nm in enumerate(("SuitAuthentication1", "SuitAuthenticationBackup", "SuitAuthentication10")):
+        b2["SUIT_Envelope_Tagged"]["suit-authentication-wrapper"][nm] = {"CoseSign1Tagged": {
+            "protected": {"suit-cose-algorithm-id": gen.SIGALGS[i + 1], "suit-cose-key-id": 100 + i}, "unprotected": {}, "payload": None, "signature": gen.hexs(64, i)}}
     b3 = gen.minimal(man={
         "suit-manifest-component-id": ["INSTLD_MFST", {"RFC4122_UUID": {"namespace": "nordicsemi.com", "name": "nRF54H20_sample_root"}}],
         "suit-install": [{"suit-directive-override-parameters": {"suit-parameter-uri": "#c1",
@@ -58,7 +61,10 @@ def descriptions(inp):
     # B1alt: the same shape, names and URIs as B1, but every referenced file is another one (a cache keyed by payload
     # name, URI or description shape instead of content would serve B1's values)
     b1alt = json.loads(json.dumps(b1).replace(json.dumps(fw)[1:-1], json.dumps(os.path.join(inp, "other.bin"))[1:-1]))
-    return {"B0": b0, "B1": b1, "B2": b2, "B3": b3, "B1alt": b1alt, "child2": child2}
+    # B3alt: another hierarchy whose dependencies have OTHER names (state kept from an earlier hierarchical parse would show)
+    radio = gen.child_env(seq=41, extra={"suit-integrated-payloads": {"#radio.bin": "0c0d"}})
+    b3alt = gen.minimal(env={"suit-integrated-dependencies": {"#radio.suit": radio, "#app.suit": gen.child_env(seq=42)}})
+    return {"B0": b0, "B1": b1, "B2": b2, "B3": b3, "B1alt": b1alt, "B3alt": b3alt, "child2": child2}
 
 
 def prepare(inp):
@@ -75,7 +81,7 @@ def prepare(inp):
     from suit_generator.input_output import InputOutputMixin
     with open(os.path.join(inp, "child2.suit"), "wb") as fh:
         fh.write(InputOutputMixin.prepare_suit_data(copy.deepcopy(ds["child2"])))
-    for n in ("B0", "B1", "B2", "B3", "B1alt"):
+    for n in ("B0", "B1", "B2", "B3", "B1alt", "B3alt"):
         with open(os.path.join(inp, f"{n}.json"), "w", encoding="utf-8") as fh:
             json.dump(ds[n], fh)
         with open(os.path.join(inp, f"{n}.yaml"), "w", encoding="utf-8") as fh:
@@ -134,11 +140,11 @@ def op_create_twice(inp, work):
     return {"first": open(a, "rb").read(), "second": open(b, "rb").read()}
 
 
-def op_parse(fmt, hier):
+def op_parse(fmt, hier, which="B3"):
     def f(inp, work):
         from suit_generator import cmd_parse
         o = os.path.join(work, f"p.{fmt}")
-        cmd_parse.main(input_file=os.path.join(inp, "B3.suit"), output_file=o, output_format="AUTO", parse_hierarchy=hier)
+        cmd_parse.main(input_file=os.path.join(inp, f"{which}.suit"), output_file=o, output_format="AUTO", parse_hierarchy=hier)
         return {"text": open(o, "rb").read()}
     return f
 
@@ -281,6 +287,9 @@ OPS["create-twice"] = op_create_twice
 for _f in ("yaml", "json"):
     for _h in (False, True):
         OPS[f"parse-{_f}{'-hier' if _h else ''}"] = op_parse(_f, _h)
+OPS["parse-yaml-hier-alt"] = op_parse("yaml", True, "B3alt")
+OPS["parse-json-hier-alt"] = op_parse("json", True, "B3alt")
+OPS["parse-B2-yaml"] = op_parse("yaml", False, "B2")
 OPS["boot-1"] = op_boot(1)
 OPS["boot-2"] = op_boot(2)
 OPS["update"] = op_update
